@@ -136,3 +136,18 @@ PROPS["C18"] = {"fn": c18, "level": "proof",
     "explanation": "cargo check of witness/ against /repo discharges the auto-trait and &self obligations; the fact dump is scanned for unsafe, interior mutability reachable from Regex, statics and &mut entry points.",
     "trusted": ["rustc trait solver and borrow checker", "regex-automata meta::Regex is correctly Send+Sync (internal cache pool)", "std collections contain no hidden shared mutable state"],
     "assumptions": ["sufficient-condition proof: any interior mutability reachable from Regex is rejected even if correctly synchronised"]}
+
+
+import fam_flow
+
+
+def c14(run, ctx):
+    fam_flow.options_provenance(run, ctx)
+    fam_flow.option_consumers(run, ctx)
+
+
+PROPS["C14"] = {"fn": c14, "level": "other",
+    "technique": "inter-procedural provenance (backward slice over MIR: parameters to callers, fields to constructors and writers) of the options argument of compile_inner / vm::run + field-consumer table",
+    "claim": "Decides structurally that the RegexOptions object reaching every compile_inner call (whole-pattern and per-delegate) and every vm::run call originates from the user's options (RegexBuilder::new / Regex::new), never from a locally manufactured default (debug helpers excepted); that every field a RegexBuilder setter writes has its consumer on both construction paths; that the case-insensitive setting is handed to the parser (the VM compares literals byte-wise) and the inner engine is not asked to fold case a second time over the re-serialised pattern.",
+    "note": "Field-based, not object-sensitive provenance; that (?i) itself is implemented correctly by parser/to_str is C19/C03 territory. The behaviour of regex-automata's size limits is the dependency's contract.",
+    "explanation": "For each call site of compile_inner and vm::run the options argument is sliced backwards through parameters (to all resolved callers), struct fields (to all constructors and field writes) and clone/borrow wrappers until it reaches an origin; origins outside the allowed set are violations."}
